@@ -337,21 +337,25 @@ def emit():
             for obj in vars(mod).values():
                 if isinstance(obj, type) and obj.__module__ == mod.__name__ and obj not in candidates:
                     candidates.append(obj)
-        allow = []
-        if reads:
-            attr0, key0 = reads[0]
+        allow, allow_note = [], ''
+        # (tried under each section in turn: a reader that post-processes one section — say, the cells — may choke
+        #  on bare instances there; that is a difference for the correspondence run to judge, not a reason to stop)
+        for attr0, key0 in reads[::-1] + reads:
             ad = {k: {} for k in data}
             ad[key0] = {qualname(c): {'py/object': qualname(c)} for c in candidates}
-            af = os.path.join(td, 'allow.json')
+            af = os.path.join(td, f'allow_{key0}.json')
             with open(af, 'wb') as fh:
                 fh.write(json.dumps(ad).encode())
-            with _Strict():
-                am = Model()
-                am.construct_from_json_file(af)
-            got = getattr(am, attr0)
-            for c in candidates:
-                if type(got.get(qualname(c))) is c:
-                    allow.append(qualname(c))
+            try:
+                with _Strict():
+                    am = Model()
+                    am.construct_from_json_file(af)
+                got = getattr(am, attr0)
+                allow = [qualname(c) for c in candidates if type(got.get(qualname(c))) is c]
+                break
+            except Exception as exc:  # noqa: BLE001
+                allow_note = f'allow-list probe under {key0!r} raised {type(exc).__name__}'
+                continue
 
         # ---- is the compiled AST part of the persisted graph?
         cm = _probe_model(compiled=True)
@@ -407,6 +411,7 @@ def emit():
     probe_rows = lst([f'({chars(n)}, {boolean(w)}, {boolean(r)})' for n, w, r in codec_rows])
     body = f'''namespace XlVerif.Gen.C12
 -- source reading, informational only (no table depends on it): {_source_note(Model)}
+-- probe notes: {allow_note or 'none'}
 /-- One `dataclasses.field`: name, `init`, `compare`, has a default, classes the annotation mentions. -/
 structure FieldRow where
   name : List Char
